@@ -216,7 +216,12 @@ func printThreadz(d *doc, v int) []byte {
 
 func printCPU(d *doc, v int) []byte { return printCPUWith(d, 0) }
 
-func printCPUWith(d *doc, java uint64) []byte {
+// hi64 is added to every address of a 64-bit binary profile in some variants (and to the expectation)
+const hi64 = uint64(0x7f3400000000)
+
+func printCPUWith(d *doc, java uint64) []byte { return printCPUHi(d, java, 0) }
+
+func printCPUHi(d *doc, java, hi uint64) []byte {
 	var b bytes.Buffer
 	var bo binary.ByteOrder = binary.LittleEndian
 	if strings.HasSuffix(d.Variant, "be") {
@@ -236,7 +241,7 @@ func printCPUWith(d *doc, java uint64) []byte {
 		w(uint64(r.C))
 		w(uint64(len(r.Stack)))
 		for _, a := range r.Stack {
-			w(a)
+			w(a + hi)
 		}
 	}
 	w(0)
@@ -269,7 +274,11 @@ func javaLocations(d *doc, v int) string {
 	if v%2 == 0 {
 		b.WriteString("  0xdead Unused (Unused.java:1)\n")
 	}
-	return b.String()
+	out := b.String()
+	if v%3 == 1 {
+		out = strings.TrimSuffix(out, "\n") // the last location line ends with the file, not with a line break
+	}
+	return out
 }
 
 func printJavaHeap(d *doc, v int) []byte {
@@ -390,6 +399,21 @@ func one(raw json.RawMessage, c *lcase, idx int) {
 			data = printThreadz(d, v)
 		case "cpu":
 			data = printCPU(d, v)
+			if strings.HasPrefix(d.Variant, "64") && c.Map == "none" && k%2 == 1 {
+				// addresses that need all 64 bits (every mapping is the fake one, so only the addresses move)
+				data = printCPUHi(d, 0, hi64)
+				hc := *c
+				hc.Stacks = nil
+				for _, st := range c.Stacks {
+					var x []uint64
+					for _, a := range st {
+						x = append(x, a+hi64)
+					}
+					hc.Stacks = append(hc.Stacks, x)
+				}
+				compare(raw, &hc, data, k)
+				continue
+			}
 		case "javaheap":
 			data = printJavaHeap(d, v)
 		case "javacontention":
